@@ -19,14 +19,24 @@ MISMATCH_WHY = "bounded-buffer behaviour differs from the proved model (C11)"
 INST = set(list(range(0, 81)) + [96, 128, 256, 1024])
 
 
-def mk(line, base=None):
-    return {"line": line, "base": base}
+def mk(line, base=None, model=True):
+    return {"line": line, "base": base, "model": model}
+
+
+def treegen_types():
+    return ["i8", "u64", "f32", "f64", "bool", "bytes", "str", "arb", "chr", "expr", "nlist", "clist", "volt", "freq", "time", "amplv", "dbw", "nvi32", "nvf32"]
 
 
 def corpus():
     sub = [("L", b"STR", False, 1), ("L", b"NUM", False, 2), ("L", b"HDR", False, 3), ("L", b"THREE", False, 4)]
     sc = {1: ([], ["ds706f7461746f"]), 2: ([], ["di1", "di2"]), 3: ([], ["h4c4f4e47484541444552", "di1"]), 4: ([], ["ds706f7461746f", "di0", "db1"])}
     out = []
+    # typed parameters of every family through the library's own next_data::<T>: allocation-free (implementation only)
+    tsub = [("L", b"P", False, 1), ("L", b"Q", False, 2)]
+    for ty in treegen_types():
+        tsc = {1: (["r:" + ty, "o:" + ty], ["r:" + ty, "di1"]), 2: ([], ["o:" + ty, "ds6f6b"])}
+        msgs = [b"P 2 V,1", b"P 2.5 VPK", b"P 3 mVrms,2 KHZ", b"P? 1e3", b"Q? MAX", b"P 10 DBM;Q? 'x'", b"P (1,2:3),(@1!2);Q? #H10", b"P? 2.5;Q? 1,2", b"P DEF,UP;Q? 5 S"]
+        out.append(mk(treegen.case_line("64", tsub, tsc, msgs), model=False))
     for m in [b"NUM?;STR?", b"STR?;NUM?;NUM?", b"HDR?", b"THREE?", b"NUM?"]:
         out.append(mk(treegen.case_line("v", sub, sc, [m])))
         for cap in range(0, 24):
@@ -55,8 +65,11 @@ def generate(rng, tier):
 
 
 def harness_line(c): return c["line"]
-def case_of_line(l): return mk(l)
-def coq_term(c): return treegen.coq_term(c["line"])
+def case_of_line(l):
+    import re
+    tys = re.findall(r"[roRO]:([a-z0-9]+)", l.split(" ")[3])
+    return mk(l, model=all(t in treegen.PTY for t in tys))
+def coq_term(c): return treegen.coq_term(c["line"]) if c["model"] else '"SKIP"'
 def obs(s): return " | ".join(" ".join(m.split(" ")[:4]) for m in s.split(" | "))     # status, out, hook, alloc
 
 
